@@ -64,12 +64,16 @@ func showDelivered(d []string) string {
 
 // readBatch reads one batch to its end; returns the delivered messages, the outcome and whether it panicked.
 func readBatch(conn *kafka.Conn) (d []string, outcome string) {
+	return readBatchWithin(conn, 10*time.Second)
+}
+
+func readBatchWithin(conn *kafka.Conn, within time.Duration) (d []string, outcome string) {
 	defer func() {
 		if r := recover(); r != nil {
 			outcome = "panic"
 		}
 	}()
-	conn.SetDeadline(time.Now().Add(10 * time.Second))
+	conn.SetDeadline(time.Now().Add(within))
 	batch := conn.ReadBatchWith(kafka.ReadBatchConfig{MinBytes: 1, MaxBytes: 10 << 20})
 	for {
 		m, err := batch.ReadMessage()
@@ -392,6 +396,14 @@ func main() {
 	defer out.Flush()
 	r := gen.New()
 	thorough := gen.Thorough()
+	switch os.Getenv("VERIF_C02_ONLY") {
+	case "unkcodec":
+		unkCodecCases()
+		return
+	case "oore":
+		ooreCases()
+		return
+	}
 	corpus()
 	corpus2()
 	nFetch, nIter := 600, 150
@@ -442,6 +454,9 @@ func main() {
 	earlyCloseCases()
 	readVsCases(thorough)
 	growCases(thorough)
+	chunkCases(thorough)
+	unkCodecCases()
+	ooreCases()
 	expiredCases(r, thorough)
 	readerCases(r, thorough)
 }
